@@ -664,6 +664,16 @@ fn txview_line(src: &str) -> Option<String> {
     with_source_tx(&toks, |tx| format!("txview {} | {}", src, view_tokens(tx).join(" ")))
 }
 
+/// `[body, wits, true, aux]` -> `[body, wits, false, aux]` (None if the third element is not the one-byte `true`)
+fn flip_validity_flag(raw: &[u8]) -> Option<Vec<u8>> {
+    let mut d = pallas_codec::minicbor::Decoder::new(raw);
+    d.array().ok()?;
+    d.skip().ok()?;
+    d.skip().ok()?;
+    let p = d.position();
+    if raw.get(p) == Some(&0xf5) { let mut v = raw.to_vec(); v[p] = 0xf4; Some(v) } else { None }
+}
+
 pub fn generate(g: &mut Gen) {
     // every block and transaction file of test_data, a few per case
     let dir = std::path::PathBuf::from(std::env::var("PV_REPO").unwrap_or_else(|_| "/repo".into())).join("test_data");
@@ -708,6 +718,13 @@ pub fn generate(g: &mut Gen) {
             // overflow checks -- C40's staging-overflow outcome, not a mapping matter; such a draw is skipped)
             if let Some(h) = guard_mut(|| gen_built(g)).flatten() {
                 if let Some(l) = txview_line(&format!("raw {h}")) { ops.push(l); }
+                // the same transaction with its phase-2 validity flag cleared (`f5` -> `f4` after body and witness set):
+                // the mapped content (outputs, inputs, fee, ...) must still be the ledger's, only `successful` changes
+                if let Some(inv) = flip_validity_flag(&unhex(&h).unwrap()) {
+                    if MultiEraTx::decode_for_era(Era::Conway, &inv).is_ok() {
+                        if let Some(l) = guard_mut(|| txview_line(&format!("raw {} invalidflag", hex(&inv)))).flatten() { ops.push(l); }
+                    }
+                }
                 // the same transaction in legal but non-canonical CBOR: inside the #6.24-wrapped items (inline datums,
                 // script refs) and anywhere else (witness datums, redeemer data, heads, definite <-> indefinite), kept
                 // only if pallas still decodes it
